@@ -123,7 +123,7 @@ def base_image(rng, ext=None, small=True):
                     lst.append(raw)
                 packed.append(lst)
             data = flux.hfe_file(packed[0], packed[1] if sides == 2 else None, 2 if enc == 'fm' else 0, ver,
-                                 lut_exact=rng.random() < 0.5)
+                                 lut_exact=rng.random() < 0.5, pad_last=rng.random() < 0.6)
             hot = [(0, 26), (512, 4 * tracks)]
             bounds = [0, 8, 26, 512, 512 + 4 * tracks, 1024, 1024 + 512, len(data)]
         b['info'].update({'enc': enc, 'spt': spt, 'tracks': tracks, 'sides': sides})
